@@ -349,6 +349,9 @@ def check_property(pid, tier, seed, reg, results_cache):
     # dep_units: home units of the functions that this property's functions call; only the call closure counts (see below)
     units = own_units + [u for u in spec.get('dep_units', []) if u not in own_units]
     kani_units = spec.get('kani', []) if (tier == 'thorough' or spec.get('kani_quick')) else []
+    if tier != 'thorough':
+        # the slower bounded harnesses run in the thorough tier only
+        kani_units = [k for k in kani_units if k not in spec.get('kani_thorough_only', [])]
     results = []
     with cf.ThreadPoolExecutor(max_workers=int(os.environ.get('VERIF_JOBS', '6'))) as ex:
         futs = {}
